@@ -222,7 +222,7 @@ func TestC04(t *testing.T) {
 		}
 	}
 	// encrypted images cut in the middle of a sector / a cipher block (the tail sector is encrypted)
-	fullImg, _ := mkRedumpImage(12, []uint32{0, 2, 5, 7, 11, 11}, c10Keys[2], 21)
+	fullImg, _ := mkRedumpImage(12, []uint32{0, 2, 5, 7, 11, 12}, c10Keys[2], 21)
 	w.Data("PS3ISO/h.dkey", []byte(hex.EncodeToString(c10Keys[2])))
 	for _, sec := range []int{3, 4, 8, 10} {
 		for _, d := range []int{1, 15, 16, 17, 100, 1024, 2047} {
@@ -378,7 +378,7 @@ func c04Tools(r *Reporter, w *World, sfos [][]byte, sfoDesc []string, idx *int) 
 		if !r.Mine(*idx) {
 			continue
 		}
-		full, _ := mkRedumpImage(12, []uint32{0, 2, 5, 7, 11, 11}, c10Keys[2], 21)
+		full, _ := mkRedumpImage(12, []uint32{0, 2, 5, 7, 11, 12}, c10Keys[2], 21)
 		copy(full[0xF70:], wmEnc)
 		copy(full[0xF80:], c10Keys[2])
 		img := filepath.Join(base, "t.iso")
